@@ -137,6 +137,8 @@ class BodyTr:
                         m, fn = self.resolve(g.elt.func)
                         return f"(EMapArr {cstr(m)} {cstr(fn)} {cstr(g.generators[0].iter.id)})"
                     fail(e, "unsupported comprehension")
+                if f.id == "qubit" and not e.args:
+                    return f"(ECall {cstr('quantum')} {cstr('qubit.__new__')} [])"
                 if f.id == "MaybeLeaked":
                     return f"(EStruct {cstr(f.id)} " + clist(self.expr(a) for a in e.args) + ")"
             if isinstance(f, ast.Attribute) and isinstance(f.value, ast.Name) and f.value.id in self.vt \
